@@ -195,3 +195,81 @@ def run(ctx):
         if impl != rl:
             ctx.disagree("time." + op, {"line": line}, impl, rl)
         ctx.sample({"request": line, "impl": impl, "model": rl})
+
+
+# ---------------------------------------------------------------------------------------------------------------------
+# the second mechanism named by the property: the lexicographic comparison inside heap.c (insert / bubble_down)
+
+class _H:            # any object works as an event handler for the schedulers
+    pass
+
+
+def heap_order(ctx):
+    """Candidate times that differ only far below the resolution of quotient+remainder-as-one-float (large quotient, close
+    remainders; equal quotients; adjacent quotients with remainders at the two ends of [0,1)) are pushed into the REAL
+    HeapScheduler (freshly compiled heap.c) and the ListScheduler in random order; the delivery order must be the exact rational
+    order of quotient+remainder, and must be what the model's `Time.cLt` predicts."""
+    from jellyfysh.base.time import Time
+    from jellyfysh.scheduler.heap_scheduler import HeapScheduler
+    from jellyfysh.scheduler.list_scheduler import ListScheduler
+    rng = ctx.rng
+    n_batches = ctx.n(300, 6000)
+    req, exp = [], []
+    for b in range(n_batches):
+        q = float(rng.choice([2 ** rng.randint(20, 52), 2 ** 40, 2 ** 52, 2 ** 30 + 1, rng.randint(0, 2 ** rng.randint(1, 52))]))
+        q = min(q, float(2 ** 52))
+        k = rng.randint(2, 6)
+        base_r = rng.random()
+        times = []
+        for j in range(k):
+            c = rng.random()
+            if c < 0.5:
+                r = min(max(base_r + rng.choice([-1, 1]) * 2.0 ** -rng.randint(20, 52), 0.0), nxt(1.0, -1))
+                times.append((q, r))
+            elif c < 0.7:
+                times.append((q + rng.choice([0.0, 1.0]) if q < 2 ** 52 else q, rng.choice([0.0, nxt(1.0, -1), 2.0 ** -53, 0.5, 0.25])))
+            else:
+                times.append((q, nxt(base_r, rng.randint(-3, 3)) if 0.0 < base_r < 0.999 else base_r))
+        times = list(dict.fromkeys(times))          # distinct times: ties are the scheduler's business (C06), not an order question
+        if len(times) < 2:
+            continue
+        rng.shuffle(times)
+        exact = sorted(times, key=lambda t: Fr(t[0]) + Fr(t[1]))
+        for name, S in (("heap", HeapScheduler), ("list", ListScheduler)):
+            s = S()
+            hs = {}
+            for t in times:
+                h = _H()
+                hs[id(h)] = t
+                s.push_event(Time(*t), h)
+            got = []
+            try:
+                for _ in times:
+                    h = s.get_succeeding_event()
+                    got.append(hs[id(h)])
+                    s.trash_event(h)
+            except Exception as e:
+                got.append("exc:" + type(e).__name__)
+            ctx.evaluations += 1
+            ctx.cls(("sched-order", name, q >= 2.0 ** 24, len(times)))
+            if got != exact:
+                ctx.fail(f"{name}-scheduler:delivery-order-differs-from-exact-order-of-quotient+remainder",
+                         {"scheduler": name, "pushed": [[a.hex(), b_.hex()] for a, b_ in times], "delivered": [g if isinstance(g, str) else [g[0].hex(), g[1].hex()] for g in got]},
+                         "events are not delivered in the exact rational order of quotient + remainder")
+        # the model's heap.c comparison on the sorted neighbours
+        for a, b_ in zip(exact, exact[1:]):
+            req.append(f"cmp {f2b(a[0])} {f2b(a[1])} {f2b(b_[0])} {f2b(b_[1])}")
+            exp.append("0 1 0 1 0 1")
+    rep = ctx.model("time", req) if req else []
+    for line, e, r in zip(req, exp, rep):
+        if e != r:
+            ctx.disagree("time.cLt (model of the heap.c comparison) vs exact order", {"request": line}, e, r)
+    ctx.count("scheduler-order-batches", n_batches)
+
+
+_run_time_class = run
+
+
+def run(ctx):
+    _run_time_class(ctx)
+    heap_order(ctx)
